@@ -49,7 +49,7 @@ def id_spaces(ctx, rule='C05-R1'):
     p = ctx.project
     f = p.func(FL, rule)
     ctx.saw(f)
-    evs = fx.own_events(FL)
+    evs = fx.deep_events(FL)
     gen = [e for e in evs if e.kind == 'store' and tag(e.target) == 'col' and e.target[2] == 'layer_id'
            and e.loops and not T.is_const(e.value)]
     ctx.floor(rule, 'stores of generated layer ids', len(gen), 1)
@@ -135,7 +135,7 @@ def totality(ctx, rule='C05-R2'):
     p = ctx.project
     for q, col, parent in ((FG, 'group_id', 'slice_id'), (FL, 'layer_id', 'group_id')):
         f = p.func(q, rule)
-        evs = fx.own_events(q)
+        evs = fx.deep_events(q)
         fills = [e for e in evs if e.kind == 'store' and not e.loops and tag(e.target) == 'col'
                  and e.target[2] == col and tag(e.target[1]) == 'mask']
         good = False
@@ -147,8 +147,13 @@ def totality(ctx, rule='C05-R2'):
             if isna and same:
                 good = True
                 # it is the last write to the column before metarize
+                def relabel(x):
+                    # data.loc[data[col] == a, col] = b : rows that have an id keep having one
+                    tm = x.target[1][2] if tag(x.target) == 'col' and tag(x.target[1]) == 'mask' else None
+                    return tag(tm) == 'cmp' and tm[1] == 'eq' and ('col', DATA, col) in (tm[2], tm[3])
                 later = [x for x in evs if x.seq > e.seq and x.kind == 'store' and T.contains(
-                    x.target, lambda y: tag(y) == 'col' and y[2] == col) and T.root(x.base) == DATA]
+                    x.target, lambda y: tag(y) == 'col' and y[2] == col) and T.root(x.base) == DATA
+                    and not relabel(x)]
                 ctx.check(not later, rule, q, e.node, e.loc(), f'{col} is written again after the fill from {parent}',
                           instance=f'{q.split(".")[-1]}: fill is the last write to {col}')
         ctx.check(good, rule, q, f.node.name, f.loc(),
@@ -156,7 +161,7 @@ def totality(ctx, rule='C05-R2'):
                   'null must inherit the parent id, so that every hit stays accounted for)',
                   instance=f'{q.split(".")[-1]}: null {col} := {parent}')
     # slices: reset to -1 for all rows, integer dtype
-    evs = fx.own_events(FS)
+    evs = fx.deep_events(FS)
     resets = [e for e in evs if e.kind == 'store' and e.target == ('col', DATA, 'slice_id') and e.value == C(-1)]
     f = p.func(FS, rule)
     ctx.check(bool(resets), rule, FS, f.node.name, f.loc(), 'slice ids are not reset to -1 for all rows first',
@@ -173,7 +178,7 @@ def sentinels(ctx, rule='C05-R3'):
         m = p.find_method(k, f'n_{which}')
         if m is None:
             raise AnalysisError(rule, f'anchor property vanished: n_{which}')
-        ret = fx.summ[m.qname].ret
+        ret = fx.deep(m.qname)[1].ret
         want = ('call', ('g', 'builtins.len'), (('call', ('g', 'numpy.unique'),
                                                  (('col', T.mk_mask(DATA, ('cmp', 'le', C(0), col)), which[:-1] + '_id'),), ()),), ())
         alts = [v for _, v in ret[1]] if tag(ret) == 'phi' else [ret]
@@ -186,7 +191,7 @@ def sentinels(ctx, rule='C05-R3'):
         raise AnalysisError(rule, 'anchor method vanished: _get_cluster_ids')
     from sa.symexec import Executor
     for which in ('slices', 'groups', 'layers'):
-        s = Executor(p).run(g, {'which': C(which)})
+        s = fx.deep(g.qname, {'which': C(which)})[1]
         col = ('col', DATA, which[:-1] + '_id')
         uq = ('call', ('g', 'numpy.unique'), (col,), ())
         want = ('call', ('g', 'numpy.delete'), (uq, ('call', ('g', 'numpy.where'), (T.mk_cmp('==', uq, C(-1)),), ())), ())
@@ -203,7 +208,7 @@ def write_back_masks(ctx, rule='C05-R4'):
     p = ctx.project
     # ---- slices
     f = p.func(FS, rule)
-    evs = fx.own_events(FS)
+    evs = fx.deep_events(FS)
     cl = [e for e in evs if e.kind == 'call' and call_head(e) == CLUST]
     ctx.floor(rule, 'clustering call in find_slices', len(cl), 1)
     for e in cl:
@@ -240,7 +245,7 @@ def write_back_masks(ctx, rule='C05-R4'):
         ctx.check(one, rule, FS, w.node, w.loc(), 'the single-point slice id is not written to exactly the one valid row',
                   instance='slices: single valid hit gets its own slice')
     # ---- groups
-    evs = fx.own_events(FG)
+    evs = fx.deep_events(FG)
     cl = [e for e in evs if e.kind == 'call' and call_head(e) == CLUST]
     ctx.floor(rule, 'clustering call in find_groups', len(cl), 1)
     for e in cl:
